@@ -4,6 +4,7 @@
 // blocks of `readahead` bytes (BZ_MAX_UNUSED = 5000 in the real library), peeks with fgetc/ungetc like its myfeof(), produces a stream's
 // payload once its compressed bytes are consumed, reports BZ_STREAM_END at the end of each stream and keeps the bytes read past it as "unused".
 #include <osmium/io/bzip2_compression.hpp>
+#include <osmium/io/gzip_compression.hpp>
 #include <cstring>
 #define ENTRY extern "C" __attribute__((noinline))
 
@@ -66,6 +67,38 @@ int BZ2_bzRead(int* bzerror, BZFILE* h, void* buf, int len) {
     verif_assume(0); *bzerror = BZ_IO_ERROR; return 0;
 }
 const char* BZ2_bzerror(BZFILE*, int* errnum) { *errnum = 0; return "model"; }
+
+// ---- in-memory interfaces: the same abstract streams; the position in the input is next_in relative to the start of the buffer
+static const char* g_membuf; static unsigned g_mem_produced; static int g_mem_done;
+static int mem_decode(const char** next_in, unsigned* avail_in, char** next_out, unsigned* avail_out, int end_code, int ok_code, int eof_code) {
+    if (g_mem_done) return eof_code;                         // calling again after the end of a stream without re-initialising is a sequence error
+    for (unsigned guard = 0; guard < 64; ++guard) {
+        const unsigned abs = static_cast<unsigned>(*next_in - g_membuf);
+        unsigned start; const unsigned s = stream_at(abs, &start);
+        if (s >= g_nstreams) return eof_code;
+        const unsigned need = start + g_csize[s] - abs;
+        if (*avail_in < need) { *next_in += *avail_in; *avail_in = 0; return eof_code; }       // input ends inside a stream
+        const unsigned left = g_psize[s] - g_mem_produced; const unsigned n = left < *avail_out ? left : *avail_out;
+        std::memset(*next_out, 'a' + static_cast<int>(s), n); *next_out += n; *avail_out -= n; g_mem_produced += n;
+        if (g_mem_produced == g_psize[s]) { *next_in += need; *avail_in -= need; g_mem_produced = 0; g_mem_done = 1; return end_code; }
+        return ok_code;                                      // output buffer full
+    }
+    return eof_code;
+}
+int BZ2_bzDecompressInit(bz_stream*, int, int) { g_mem_done = 0; g_mem_produced = 0; return BZ_OK; }
+int BZ2_bzDecompressEnd(bz_stream*) { return BZ_OK; }
+int BZ2_bzDecompress(bz_stream* st) {
+    const char* in = st->next_in; const int r = mem_decode(&in, &st->avail_in, &st->next_out, &st->avail_out, BZ_STREAM_END, BZ_OK, BZ_DATA_ERROR);
+    st->next_in = const_cast<char*>(in); return r;
+}
+int inflateInit2_(z_streamp, int, const char*, int) { g_mem_done = 0; g_mem_produced = 0; return Z_OK; }
+int inflateEnd(z_streamp) { return Z_OK; }
+int inflateReset(z_streamp) { g_mem_done = 0; g_mem_produced = 0; return Z_OK; }
+int inflate(z_streamp st, int) {
+    const char* in = reinterpret_cast<const char*>(st->next_in); char* out = reinterpret_cast<char*>(st->next_out);
+    const int r = mem_decode(&in, &st->avail_in, &out, &st->avail_out, Z_STREAM_END, Z_OK, Z_BUF_ERROR);
+    st->next_in = reinterpret_cast<unsigned char*>(const_cast<char*>(in)); st->next_out = reinterpret_cast<unsigned char*>(out); return r;
+}
 }
 #endif
 
@@ -94,6 +127,33 @@ ENTRY int verif_bzip2_fd(int fd, unsigned nstreams, const unsigned* csize, const
         *offset = off;
         d.close();
     } catch (const osmium::bzip2_error&) { rc = 1; } catch (const std::exception&) { rc = 2; }
+    flush();
+    *rlelen = n;
+    return rc;
+}
+
+// in-memory decompressors: kind 0 bzip2, 1 gzip.  In the symbolic build `data` is a dummy buffer of the total compressed size.
+ENTRY int verif_buffer_decomp(int kind, const char* data, unsigned size, unsigned nstreams, const unsigned* csize, const unsigned* psize,
+                              unsigned char* rle, unsigned cap, unsigned* rlelen, unsigned* nreads) {
+#ifndef VERIF_NATIVE
+    g_nstreams = nstreams; g_csize = csize; g_psize = psize; g_membuf = data; g_total = size;
+#endif
+    unsigned n = 0; *nreads = 0; int rc = 0;
+    int last = -1; unsigned run = 0;
+    auto flush = [&]() { if (run && n + 5 <= cap) { rle[n] = static_cast<unsigned char>(last); std::memcpy(rle + n + 1, &run, 4); n += 5; } run = 0; };
+    auto drain = [&](osmium::io::Decompressor& d) {
+        for (unsigned guard = 0; guard < 32; ++guard) {
+            const std::string s = d.read();
+            if (s.empty()) break;
+            ++*nreads;
+            for (const char c : s) { if (c != last) { flush(); last = c; } ++run; }
+        }
+        d.close();
+    };
+    try {
+        if (kind == 0) { osmium::io::Bzip2BufferDecompressor d{data, size}; drain(d); }
+        else { osmium::io::GzipBufferDecompressor d{data, size}; drain(d); }
+    } catch (const osmium::bzip2_error&) { rc = 1; } catch (const osmium::gzip_error&) { rc = 1; } catch (const std::exception&) { rc = 2; }
     flush();
     *rlelen = n;
     return rc;
